@@ -81,6 +81,7 @@ def r_C12b(root):
     # ---- C12.e
     pats = _string_value_patterns(root); nfas = [rx.Nfa(p) for p in pats]
     vis = find_i(root, R, "RRELVisitor.visit_string_value"); rep = find_i(root, R, "RRELNavigation.__repr__")
+    fns_rep = {k_: v_ for k_, v_ in helper_functions(root, R, "RRELNavigation.__repr__").items() if not k_.startswith("__")}
     words = []
     for n in range(2, 6):
         for tup in itertools.product("a\\'\"", repeat=n):
@@ -93,7 +94,7 @@ def r_C12b(root):
     for w in words:
         try:
             v = visit(w)
-            s = pyeval.run_block(rep.body, {"self.fixed_name": v, "self.name": "n", "self.consume_name": False})
+            s = pyeval.run_block(rep.body, {"__functions__": fns_rep, "self": {".kind": "nav"}, "self.fixed_name": v, "self.name": "n", "self.consume_name": False, "RRELNavigation": {".kind": "cls"}})
             if not (isinstance(s, str) and s.endswith("~n")): bad = (w, "printed form %r does not end in the navigation ~n" % (s,)); break
             lit = s[:-2]
             if not any(_accepts(a, lit) for a in nfas): bad = (w, "the literal %s is read as the name %r and printed as %s, which is not a string literal of the grammar" % (w, v, lit)); break
